@@ -59,6 +59,6 @@ files = sorted(set(re.findall(r"^\+\+\+ b/(\S+)", open(patch).read(), re.M)))
 meta = {"id": rid, "property": prop, "files": files, "origin": "independent sub-agent asked for a behaviour-preserving change of the code behind the property",
         "confirmed": {"demo_output_identical_with_and_without_patch": True, "demo_lines": len(out0.splitlines())},
         "checks_run": "all 20 quick checks against /repo with the patch applied (git apply), then git checkout -- .",
-        "alarms": alarms, "silent": not alarms}
+        "alarms_when_first_run": alarms, "silent_when_first_run": not alarms}
 json.dump(meta, open(os.path.join(dst, "meta.json"), "w"), indent=1)
 print(f"archived {rid}: silent={not alarms} alarms={[(k, v['exit'], v['rules'][:2], v['analysis_error'][:1]) for k, v in alarms.items()]}")
